@@ -140,11 +140,14 @@ class Ctx:
 
     # -------- known findings / violations --------------------------------------------------
     def _load_known(self):
-        if not os.path.exists(KNOWN):
-            return []
-        with open(KNOWN) as f:
-            j = json.load(f)
-        return [k for k in j.get("findings", []) if k.get("property") == self.prop]
+        out = []
+        paths = [KNOWN, os.path.join(HOME, "known_findings.d", "%s.json" % self.prop)]
+        for p in paths:
+            if os.path.exists(p):
+                with open(p) as f:
+                    j = json.load(f)
+                out += [k for k in j.get("findings", []) if k.get("property") == self.prop]
+        return out
 
     def violation(self, signature: str, detail: dict | None = None, what: str = ""):
         """Report a property violation observed on the implementation.
